@@ -1,7 +1,8 @@
 CONSTANTS
-  G = 4
-  Ws = {1, 2, 3, 4, 5}
+  G = 3
+  Ws = {1, 2, 3, 4}
   D <- DQuick
+  Als = {0, 1, 2}
   HasFill = TRUE
 SPECIFICATION Spec
 INVARIANTS RowInsideBox Equivariant RowsOrdered NoRowLost OutlineIsThreeLines
